@@ -264,7 +264,24 @@ class InlinePass(ir.passes.InPlacePass):
                 for i in range(len(new_node.inputs)):
                     new_node.replace_input_with(i, None)
             raise
-        output_values = [value_map[output] for output in function.outputs]
+        # A function may return one of its inputs. That value belongs to the caller (it may be a
+        # graph input or a graph output): replace_nodes_and_values() copies the name, type and shape
+        # of the call's output onto the replacement value, which would rename the caller's value.
+        # Forward such a value through an Identity node so that the replacement is a new value.
+        produced = {id(output) for new_node in nodes for output in new_node.outputs}
+        output_values: list[ir.Value | None] = []
+        for output in function.outputs:
+            value = value_map[output]
+            if value is not None and id(value) not in produced:
+                identity = ir.Node("", "Identity", [value], num_outputs=1)
+                identity.outputs[0].name = output.name
+                identity.outputs[0].type = value.type
+                identity.outputs[0].shape = value.shape
+                rename(identity)
+                nodes.append(identity)
+                produced.add(id(identity.outputs[0]))
+                value = identity.outputs[0]
+            output_values.append(value)
         return nodes, output_values  # type: ignore[return-value]
 
     def _inline_calls_in(
